@@ -152,13 +152,22 @@ def variants(rng, tier):
     return vs
 
 
-def make_handler(rng, var, upw=None, opw=None):
+# (user password, user validation salt) pairs on which Algorithm 2.B stops on its boundary: the loop ends at a round i >= 64 whose last
+# ciphertext byte is exactly i - 32 (found with tools/oracle/security.alg2b instrumented; about 2-3 % of all hashes).  `<` against `<=`
+# in the loop condition of revision_6_kdf differs on these and on no other input.
+KDF_BOUNDARY = [(b"u6", b"b0000041"), (b"u6", b"b0000049"), (b"user", b"b0000071"), (b"", b"b0000030"), ("Ⅸ own".encode(), b"b0000051"),
+                (b"u6", b"b0000056"), (b"u6", b"b0000098"), (b"u6", b"b0000119"), (b"", b"b0000116"), (b"user", b"b0000000"), (b"user", b"b0000085")]
+
+
+def make_handler(rng, var, upw=None, opw=None, vsalt=None):
     R, method, n, V, cfl = var[:5]
     strm, absent = (var[5], var[6]) if len(var) > 5 else (None, False)
     pws = PW_UTF8 if R >= 5 else PW_BYTES
     upw = rng.choice(pws) if upw is None else upw
     opw = rng.choice(pws) if opw is None else opw
     salts = tuple(rand_bytes(rng, 8) for _ in range(4))
+    if vsalt is not None:
+        salts = (vsalt,) + salts[1:]
     return S.Handler(R, method, n, upw, opw, rng.choice(P_VALUES), rng.choice(IDS), encrypt_metadata=rng.random() < 0.6,
                      salts=salts, file_key=rand_bytes(rng, 32), u_tail=rand_bytes(rng, 16), V=V, cf_length=cfl or "none",
                      str_method=strm, absent=absent)
@@ -742,6 +751,11 @@ def generate(rng, tier):
                     yield c
                 for c in file_open_cases_for(rng, h, tags=["R6"], fmt=rng.choice(["table", "stream"])):
                     yield c
+        # Algorithm 2.B ending exactly on its boundary (user validation hash)
+        for up, vs in (KDF_BOUNDARY[:1] if tier == "quick" else KDF_BOUNDARY):
+            h = make_handler(rng, (6, "AESV3", 32, 5, "bytes"), up, b"owner-b", vsalt=vs)
+            for c in open_cases_for(rng, h, nitems=1, tags=["R6", "kdf-boundary"])[:1]:
+                yield c
     for c in malformed_open_cases(rng):
         yield c
     for c in dec_cases(rng, tier):
